@@ -252,6 +252,10 @@ def random_config(rng, closed=True):
         feats.add('exact_target')
     if terminal:
         feats.add('terminals')
+        if rng.random() < 0.3:
+            # the terminal descriptors handed over as a tuple or a set rather than a list (any collection of strings)
+            cfg['terminal_container'] = rng.choice(['tuple', 'frozenset'])
+            feats.add('terminals_not_a_list')
     if fragr:
         feats.add('conditional_reactivities')
     if masses:
@@ -269,8 +273,9 @@ DICTS = {}      # fragment string -> fragment dictionary read once and shared by
 
 def make_sampler(cfg):
     from cgsmiles import MoleculeSampler
+    container = {'tuple': tuple, 'frozenset': frozenset}.get(cfg.get('terminal_container'), list)
     kw = dict(polymer_reactivities=cfg['polymer_reactivities'], fragment_reactivities=cfg['fragment_reactivities'],
-              terminal_bonds=list(cfg['terminal_bonds']), all_atom=cfg['all_atom'], seed=cfg['seed'])
+              terminal_bonds=container(cfg['terminal_bonds']), all_atom=cfg['all_atom'], seed=cfg['seed'])
     if cfg['fragment_masses']:
         kw['fragment_masses'] = dict(cfg['fragment_masses'])
     if cfg.get('via') == 'dict':
